@@ -336,6 +336,8 @@ func (p *pp) unknownType(v reflect.Value) {
 }
 
 func (p *pp) badVerb(verb rune) {
+	// CUSTOM: a misused %w invalidates the wrapped error.
+	p.invalidateWrap(verb)
 	p.erroring = true
 	p.buf.writeString(percentBangString)
 	p.buf.writeRune(verb)
@@ -1077,12 +1079,16 @@ func (p *pp) argNumber(
 }
 
 func (p *pp) badArgNum(verb rune) {
+	// CUSTOM: a misused %w invalidates the wrapped error.
+	p.invalidateWrap(verb)
 	p.buf.writeString(percentBangString)
 	p.buf.writeRune(verb)
 	p.buf.writeString(badIndexString)
 }
 
 func (p *pp) missingArg(verb rune) {
+	// CUSTOM: a misused %w invalidates the wrapped error.
+	p.invalidateWrap(verb)
 	p.buf.writeString(percentBangString)
 	p.buf.writeRune(verb)
 	p.buf.writeString(missingString)
